@@ -446,6 +446,10 @@ func (e *MetaCDC) Create(req *request.CreateRequest) (resp *request.CreateRespon
 		defer e.collectionNames.Unlock()
 		e.collectionNames.excludeData[uKey] = lo.Without(e.collectionNames.excludeData[uKey], excludeCollectionNames...)
 		e.collectionNames.data[uKey] = lo.Without(e.collectionNames.data[uKey], newCollectionNames...)
+		if req.ExtraInfo.EnableUserRole {
+			// the duplicate check only passes when no other task of the target has the flag
+			e.collectionNames.extraInfos[uKey] = model.ExtraInfo{EnableUserRole: false}
+		}
 	}
 
 	defer func() {
